@@ -439,6 +439,13 @@ func (w *Writer) dumpObjectIndex() error {
 		}
 		last = k
 	}
+	if maxCommon+1 >= 1<<5 {
+		// The footer stores the abbreviation length in 5 bits.
+		// Ids that agree in their first 31 bytes (32-byte ids
+		// only) cannot be told apart by any length that fits:
+		// write no object index, readers then scan the refs.
+		return nil
+	}
 	w.Stats.ObjectIDLen = maxCommon + 1
 
 	w.blockWriter = w.newBlockWriter(blockTypeObj)
